@@ -44,3 +44,16 @@ Theorem C10_subslot : forall p c, s_leaf (stask_of p c) = false -> s_leaves (sta
   (sdates p st c = None -> exists t, In t (s_leaves (stask_of p c)) /\ sleaf_dates st t = None).
 Proof. exact subslot_container. Qed.
 Print Assumptions C10_subslot.
+
+(* ---- second granularity, teams with limits (Model/SubSlotTeam.v) *)
+Require Import SP.Model.SubSlotTeam SP.Proofs.SubSlotTeamDates.
+Theorem C10_subslot_teams : forall p c, tt_leaf (ttask_of p c) = false -> tt_leaves (ttask_of p c) <> nil ->
+  let st := tschedule p in
+  (forall s e, tdates p st c = Some (s, e) ->
+     (forall t, In t (tt_leaves (ttask_of p c)) -> exists d, sleaf_dates st t = Some d) /\
+     (forall t s' e', In t (tt_leaves (ttask_of p c)) -> sleaf_dates st t = Some (s', e') -> (s <= s')%Z /\ (e' <= e)%Z) /\
+     (exists t s' e', In t (tt_leaves (ttask_of p c)) /\ sleaf_dates st t = Some (s', e') /\ s' = s) /\
+     (exists t s' e', In t (tt_leaves (ttask_of p c)) /\ sleaf_dates st t = Some (s', e') /\ e' = e)) /\
+  (tdates p st c = None -> exists t, In t (tt_leaves (ttask_of p c)) /\ sleaf_dates st t = None).
+Proof. exact team_container. Qed.
+Print Assumptions C10_subslot_teams.
